@@ -60,6 +60,9 @@ func MsgToProto(msg Message) (*kcons.Message, error) {
 		}
 	case *ProposalPOLMessage:
 		pbBits := msg.ProposalPOL.ToProto()
+		if pbBits == nil {
+			return nil, errors.New("nil ProposalPOL")
+		}
 		pb = kcons.Message{
 			Sum: &kcons.Message_ProposalPol{
 				ProposalPol: &kcons.ProposalPOL{
